@@ -1,4 +1,5 @@
 #include "sources.hpp"
+#include "indep_nif.hpp"
 #include "gen.hpp"
 #include <cfloat>
 
@@ -150,6 +151,8 @@ ApiModel buildApiModel(uint64_t seed, int variant, const ApiOpts* optsIn) {
 	bool fo4 = ver.IsFO4() || ver.IsFO76();
 	M.nif = std::make_unique<NifFile>();
 	NifFile& nif = *M.nif;
+	std::string history;
+	if (o.usedObject) { Rng hr(mix(seed, 0x0B7EC7)); history = useObject(nif, hr); }
 	nif.Create(ver);
 	int nshapes = o.shapes > 0 ? o.shapes : 1 + (int)rng.below(3);
 	std::ostringstream desc;
@@ -289,6 +292,7 @@ ApiModel buildApiModel(uint64_t seed, int variant, const ApiOpts* optsIn) {
 			if (auto sh = nif.FindBlockByName<NiShape>(name)) addTexturingProperty(nif, sh, trng, {});
 		desc << " +texturing";
 	}
+	if (!history.empty()) desc << " {object " << history << "}";
 	M.desc = desc.str();
 	{
 		NifFile cp(nif);
@@ -301,6 +305,48 @@ ApiModel buildApiModel(uint64_t seed, int variant, const ApiOpts* optsIn) {
 } // namespace vf
 
 namespace vf {
+std::string sampleWithUnknownType(Rng& rng, std::string* desc) {
+	auto& rs = realSamples();
+	for (int tries = 0; tries < 20; tries++) {
+		auto& s = rs[rng.below((uint32_t)rs.size())];
+		indep::Header h = indep::parse(s.bytes);
+		if (!h.ok || !h.hasSizes || h.types.size() < 2 || h.blocksEnd + 8 != s.bytes.size()) continue;
+		indep::Header mod = h;
+		size_t t = 1 + rng.below((uint32_t)h.types.size() - 1);
+		mod.types[t] = "Xq" + mod.types[t];
+		if (desc) *desc = s.name + " with " + h.types[t] + " unknown";
+		return indep::withHeader(s.bytes, h, mod);
+	}
+	return "";
+}
+
+std::string useObject(NifFile& n, Rng& rng) {
+	auto& rs = realSamples();
+	switch (rng.below(3)) {
+		case 0: {
+			auto& s = rs[rng.below((uint32_t)rs.size())];
+			loadNif(n, s.bytes);
+			return "previously loaded " + s.name;
+		}
+		case 1: {
+			std::string d;
+			std::string b = sampleWithUnknownType(rng, &d);
+			if (!b.empty()) { loadNif(n, b); return "previously loaded " + d; }
+			return "fresh";
+		}
+		default: {
+			n.Create(rng.coin() ? NiVersion::getSSE() : NiVersion::getFO4());
+			n.AddNode("UsedBefore", MatTransform());
+			auto sed = std::make_unique<NiStringExtraData>();
+			sed->name.get() = "history";
+			sed->stringData.get() = "left over";
+			n.AssignExtraData(n.GetRootNode(), std::move(sed));
+			n.AddNode("UsedBefore2", MatTransform());
+			return "previously created (SSE/FO4, 4 blocks)";
+		}
+	}
+}
+
 void addTexturingProperty(NifFile& nif, NiShape* shape, Rng& rng, const std::vector<std::string>& paths) {
 	auto& hdr = nif.GetHeader();
 	std::string name = shape->name.get();
